@@ -16,8 +16,9 @@ invariant between two host operations:
   between two `Execute` calls, time scale 1).
 
 `reachable_hinv`: every state reachable from the initial one by host operations has run out of fuel
-or satisfies `HInv`.  Programs must be `ProgOK` (object ids < 100, no `local.p0 waittill` on a thread
-object); `ProgOK` is decidable.
+or satisfies `HInv`.  Programs must be `ProgOK` (object ids < 100; `local.p0 waittill n` on a thread object
+only with names other than the engine's `delete` / `remove` events); `ProgOK` is decidable and every generator
+family of tools/vlib/schedgen.py satisfies it.
 
 **Not covered** (excluded from `HostOp`): `save` / `load`.  `load` writes a snapshot taken earlier into
 the present context; objects deleted between the two would leave waiters registered on a dead source,
